@@ -83,14 +83,22 @@ impl Group for C10Sim {
         let len = rng.range(6, if tier == Tier::Quick { 14 } else { 30 }) as usize;
         let mut ops = gen_ops(rng, len);
         if rng.chance(1, 4) { ops.insert(0, "world perm".to_string()); }
+        else if rng.chance(1, 6) {
+            let mut pre = vec!["world fresh".to_string()];
+            if rng.chance(1, 3) { pre.push("act".to_string()); }
+            if rng.chance(1, 3) { pre.push("vh 0 b 0".to_string()); }
+            if rng.chance(4, 5) { pre.push(format!("vh{} 0 g 0", if rng.chance(1, 2) { "1" } else { "" })); }
+            if rng.chance(4, 5) { pre.push("act".to_string()); }
+            for (i, o) in pre.into_iter().enumerate() { ops.insert(i, o); }
+        }
         ops
     }
     fn exec_case(&self, ops: &[String]) -> CaseOut {
         let mut co = CaseOut::default();
-        let mut sim = Sim::new_with(ops.first().map(|o| o == "world perm").unwrap_or(false));
+        let mut sim = Sim::new_world(ops.first().map(|o| o.as_str()).unwrap_or(""));
         let (mut seen_ok_change, mut seen_err) = (false, false);
         for (i, op) in ops.iter().enumerate() {
-            if op == "world perm" { co.out.push("ok".into()); continue; }
+            if op.starts_with("world ") { co.out.push("ok".into()); continue; }
             let before_view = view(&sim.node(), false);
             let before_store = sim.store_dump();
             let (out, pending) = exec_op(&mut sim, op);
